@@ -98,6 +98,93 @@ def check_overload_neighbours(scratch: Path) -> List[Dict[str, Any]]:
     return out
 
 
+def _names(system: Any, modname: str) -> Dict[str, Any]:
+    """name -> docstring for everything documented in the module and in its classes (qualified by the class name)."""
+    out: Dict[str, Any] = {}
+    mod = system.allobjects.get(modname)
+    if mod is None:
+        return out
+    for n, o in mod.contents.items():
+        out[n] = o.docstring
+        for n2, o2 in getattr(o, "contents", {}).items():
+            out[f"{n}.{n2}"] = o2.docstring
+    return out
+
+
+_NS_ORACLE = ("import sys, json, inspect, importlib; sys.path.insert(0, sys.argv[1]); m = importlib.import_module(sys.argv[2]); out = {}\n"
+              "for n, v in vars(m).items():\n"
+              "    if n.startswith('__') or (inspect.ismodule(v)) or getattr(v, '__module__', m.__name__) != m.__name__: continue\n"
+              "    out[n] = inspect.getdoc(v) if (inspect.isclass(v) or inspect.isroutine(v)) else None\n"
+              "    if inspect.isclass(v):\n"
+              "        for k, w in vars(v).items():\n"
+              "            if k.startswith('__') and k != '__init__': continue\n"
+              "            f = w.__func__ if isinstance(w, (staticmethod, classmethod)) else w\n"
+              "            out[n + '.' + k] = inspect.getdoc(f) if inspect.isroutine(f) else None\n"
+              "print(json.dumps(out))")
+
+
+def _cpython_names(base: Path, modname: str) -> Dict[str, Any]:
+    r = subprocess.run([sys.executable, "-I", "-c", _NS_ORACLE, str(base), modname], capture_output=True, text=True, timeout=60)
+    if r.returncode != 0:
+        raise RuntimeError("namespace oracle failed: " + r.stderr[-400:])
+    return json.loads(r.stdout)
+
+
+def _diff(what: str, want: Dict[str, Any], got: Dict[str, Any]) -> List[Dict[str, Any]]:
+    out = []
+    for n in sorted(set(want) | set(got)):
+        if n not in got:
+            out.append({"object": n, "expected": "documented", "got": None, "what": what + ": missing"})
+        elif n not in want:
+            out.append({"object": n, "expected": "not bound by the code", "got": "documented", "what": what + ": invented"})
+        elif want[n] is not None and want[n] != got[n]:
+            out.append({"object": n, "expected": want[n], "got": got[n], "what": what + ": docstring"})
+    return out
+
+
+REBUILD_V1 = "class OldClass:\n    'old class'\n    def method(self):\n        'old method'\ndef old_func():\n    'old func'\ndef stays():\n    'first version'\n"
+REBUILD_V2 = "class NewClass:\n    'new class'\n    @classmethod\n    def make(cls):\n        'make'\nasync def new_coro():\n    'coro'\ndef stays():\n    'second version'\n"
+
+
+def check_rebuild_history(scratch: Path) -> List[Dict[str, Any]]:
+    """History: analyse a file, edit it, analyse it again with a new System in the same process: the second documentation is that
+       of the second text."""
+    base = scratch / "rebuild"
+    base.mkdir(parents=True)
+    f = base / "proj.py"
+    out: List[Dict[str, Any]] = []
+    for step, text in (("first build", REBUILD_V1), ("second build (file edited)", REBUILD_V2)):
+        f.write_text(text)
+        want = _cpython_names(base, "proj")
+        b = P.build_sources(paths=[f], record_states=False)
+        out += _diff("rebuild history, " + step, want, _names(b["system"], "proj"))
+    return out
+
+
+OLDSTYLE_SRC = ("class Registry:\n    'doc'\n    def register(func, name=None):\n        'register'\n        func.registered_name = name\n        func.enabled = True\n"
+                "    register = staticmethod(register)\n"
+                "    def configure(klass, strict=False):\n        'configure'\n        klass.strict = strict\n    configure = classmethod(configure)\n"
+                "    def plain(self):\n        'plain'\n        self.seen = 1\n")
+OWN_OVERLOAD_SRC = ("def overload(func):\n    'a dispatch helper of the project, not typing.overload'\n    return func\n"
+                    "@overload\ndef area(shape):\n    'area of a shape'\n"
+                    "class Canvas:\n    'canvas'\n    @overload\n    def draw(self, shape):\n        'draw a shape'\n    @staticmethod\n    @overload\n    def blank():\n        'a blank canvas'\n")
+
+
+def check_statics(scratch: Path) -> List[Dict[str, Any]]:
+    """Old-style static / class methods whose body assigns attributes on their first parameter (not instance variables of the
+       class); a project-defined decorator that happens to be called `overload` (the functions keep their docstrings)."""
+    base = scratch / "statics"
+    base.mkdir(parents=True)
+    out: List[Dict[str, Any]] = []
+    for modname, src, allow_instance in (("oldstyle", OLDSTYLE_SRC, {"Registry.seen"}), ("ownoverload", OWN_OVERLOAD_SRC, set())):
+        (base / f"{modname}.py").write_text(src)
+        want = _cpython_names(base, modname)
+        b = P.build_sources(paths=[base / f"{modname}.py"], record_states=False)
+        got = {n: d for n, d in _names(b["system"], modname).items() if n not in allow_instance}     # instance variables set through self are documented on purpose
+        out += _diff(modname, want, got)
+    return out
+
+
 def rendered_text(obj: Any) -> str:
     """The text of the docstring as the pages show it (parsed docstring -> stan -> flattened, tags removed)."""
     import re
@@ -132,4 +219,4 @@ def check(scratch: Path) -> List[Dict[str, Any]]:
             shown = rendered_text(o)
             if doc not in shown:
                 out.append({"object": name, "expected": doc, "got": shown[:200], "what": "docstring as rendered"})
-    return out + check_fields(scratch) + check_overload_neighbours(scratch)
+    return out + check_fields(scratch) + check_overload_neighbours(scratch) + check_rebuild_history(scratch) + check_statics(scratch)
